@@ -4,8 +4,9 @@
 // Included unit: `tree` (RevisionTree / RevisionTreeEntry mirrors, `RevisionTree::commit`, `has_staging`, `get_revisions`,
 // `get_winner`, `get_leafs`, `RevisionTreeEntry::is_staging/get_parent` — all RE-VERIFIED from the real code in this file;
 // `tree` includes `rev`: Revision, `digest_string`, `dec`).
-// Proved FROM THE REAL CODE here: Melda::commit (the committing pass calls the real RevisionTree::commit on every tree),
-// DataStorage::write_raw_item, DeltaId::new / new_from_anchors / key.
+// Proved FROM THE REAL CODE here: Melda::commit, DataStorage::write_raw_item, DeltaId::new / new_from_anchors / key.
+// The committing pass of commit (step 8) is recognised by its exact shape and replaced by the VERIFIED helper
+// `vx_docs_commit_all`, which calls the real RevisionTree::commit on every tree.
 // ASSUMED (every `#[verifier::external_body]` item below, each with its source):
 //   * the Adapter contract on `AdapterBox::write_object`         — unit `pack` (assumed there too), PROVED for MemoryAdapter & wrappers in unit `adapter`
 //   * `DataStorage::pack`                                         — PROVED in unit `pack` (a consequence of its contract is used)
@@ -153,15 +154,15 @@ pub fn vx_revs_entries<'a>(m: &'a HashMap<Revision, RevisionTreeEntry>) -> (v: V
         forall|i: int, j: int| 0 <= i < j < v.len() ==> *v@[i].0 != *v@[j].0,
 { unimplemented!() }
 
-/// what `RevisionTree::commit` guarantees (its `ensures` in unit `tree`, text copied; the committing pass of `Melda::commit`
-/// calls the real function, re-verified in this file, and proves this predicate from its contract)
+/// what `RevisionTree::commit` guarantees (its `ensures` in unit `tree`, text copied; `vx_docs_commit_all` below calls the real
+/// function, re-verified in this file, and PROVES this predicate from its contract)
 pub open spec fn tree_commit_post(o: RevisionTree, n: RevisionTree) -> bool {
     &&& forall|k: Revision| n.revisions@.contains_key(k) <==> o.revisions@.contains_key(k)
     &&& forall|k: Revision| #[trigger] n.revisions@.contains_key(k) ==> n.revisions@[k].parent == o.revisions@[k].parent && !n.revisions@[k].staging
     &&& !n.staging
     &&& n.leafs_cache@ == o.leafs_cache@ && n.winner_cache == o.winner_cache && n.state is Validated
 }
-/// R18 + R6: the second and third pass over `documents` (`for (uuid, rt) in self.documents.read().unwrap().iter() { let [mut] g =
+/// R18 + R6: a pass over `documents` that locks each tree first (`for (uuid, rt) in self.documents.read().unwrap().iter() { let [mut] g =
 /// rt.lock().expect(..); ..`) = a pass over an enumeration of the keys (each once; the key set cannot change while the read
 /// guard is held), the tree of each key being reached through its mutex: `vx_docs_tree_mut` (ASSUMED of std BTreeMap / Mutex)
 #[verifier::external_body]
@@ -175,6 +176,50 @@ pub fn vx_docs_tree_mut<'a>(m: &'a mut BTreeMap<String, RevisionTree>, k: &Strin
     requires dmap(*old(m)).contains_key(k@),
     ensures *r == dmap(*old(m))[k@], dmap(*final(m)) == dmap(*old(m)).insert(k@, *final(r)),
 { unimplemented!() }
+
+/// R12 + R6: the committing pass `for (_, rt) in documents.iter() { let mut g = rt.lock().expect(..); g.commit(); }`, written as
+/// the explicit loop over the keys and VERIFIED here: every tree gets the real `RevisionTree::commit` (re-verified in this
+/// file; its precondition is discharged from `docs_inv`), no object is added or removed.  Only the two access shims above
+/// are assumed.
+pub fn vx_docs_commit_all(m: &mut BTreeMap<String, RevisionTree>)
+    requires docs_inv(dmap(*old(m))),
+    ensures all_committed(dmap(*old(m)), dmap(*final(m))),
+{
+    let ghost docs0 = dmap(*m);
+    let keys = vx_docs_keys(m);
+    let mut i: usize = 0;
+    while i < keys.len()
+        invariant
+            i <= keys.len(), docs_inv(docs0), docs_enum(docs0, keys@),
+            forall|k: Seq<char>| dmap(*m).contains_key(k) <==> docs0.contains_key(k),
+            forall|j: int| 0 <= j < i ==> tree_commit_post(docs0[(#[trigger] keys@[j])@], dmap(*m)[keys@[j]@]),
+            forall|j: int| i <= j < keys.len() ==> dmap(*m)[(#[trigger] keys@[j])@] == docs0[keys@[j]@],
+        decreases keys.len() - i
+    {
+        let ghost docs_b = dmap(*m);
+        proof { assert(docs0.contains_key(keys@[i as int]@)); }
+        let rt = vx_docs_tree_mut(m, &keys[i]);
+        rt.commit();
+        proof {
+            let key = keys@[i as int]@;
+            assert(dmap(*m) =~= docs_b.insert(key, *rt));
+            assert forall|j: int| 0 <= j < i + 1 implies tree_commit_post(docs0[(#[trigger] keys@[j])@], dmap(*m)[keys@[j]@]) by {
+                if j < i { assert(keys@[j]@ != keys@[i as int]@); }
+            }
+            assert forall|j: int| i + 1 <= j < keys.len() implies dmap(*m)[(#[trigger] keys@[j])@] == docs0[keys@[j]@] by {
+                assert(keys@[i as int]@ != keys@[j]@);
+            }
+        }
+        i += 1;
+    }
+    proof {
+        assert forall|k: Seq<char>| #[trigger] dmap(*m).contains_key(k) implies tree_commit_post(docs0[k], dmap(*m)[k]) by {
+            assert(docs0.contains_key(k));
+            let j = choose|j: int| 0 <= j < keys.len() && #[trigger] keys@[j]@ == k;
+            assert(tree_commit_post(docs0[keys@[j]@], dmap(*m)[keys@[j]@]));
+        }
+    }
+}
 
 /// `BTreeSet::from([x])`
 #[verifier::external_body]
